@@ -45,6 +45,10 @@ def kani_obligations(prop, tier):
                     cfgs = ["dev"]
                 if tier == "quick" and m.get("quickconfigs") and not h["configs"]:
                     cfgs = [c for c in cfgs if c in m["quickconfigs"]]
+                # //@ob also=<cfg,...>: additional configurations for this obligation only (the module is injected there too)
+                for c in (h["meta"].get("also") or "").split(","):
+                    if c and c not in cfgs:
+                        cfgs.append(c)
                 for c in cfgs:
                     obs.append({"engine": "kani", "config": c, "harness": h["name"], "module": m["stem"],
                                 "host": m["host"], "meta": h["meta"], "props": h["props"]})
@@ -65,7 +69,13 @@ def _run_kani_config(prop, tier, cfg, lst, mods, jobs, replay_dir, known_sites, 
     scratch = common.new_scratch("k." + cfg)
     common.copy_repo(scratch)
     needed = {o["module"] for o in lst}
-    cmods = [m for m in mods_for_config(mods, cfg) if m["stem"] in needed or m.get("always") or m["stem"] == "support"]
+    cmods = [m for m in mods_for_config(mods, cfg) if m.get("always") or m["stem"] == "support"]
+    # a module is injected wherever one of its obligations is scheduled (its own //@config list or an obligation's also=)
+    for m in mods:
+        if m["stem"] in needed and m["stem"] not in {x["stem"] for x in cmods}:
+            mm = dict(m)
+            mm["configs"] = [cfg]
+            cmods.append(mm)
     annotations += K.annotate(scratch, cmods, cfg)
     # full harness paths: <host module path>::verif_<stem>::<name>
     full = {}
@@ -323,11 +333,20 @@ def main():
             undecided += vinfo.get("undecided", [])
         except Undecided as u:
             undecided.append("verus: %s" % u)
-    if prop == "C19" and not a.only:
+    if not a.only:
+        # configuration dependence that no contract covers: every such site for C19 (whose argument is compositional over
+        # exactly the baseline sites); for the other properties the sites in the files their obligations are anchored in
+        # (the obligations were proved in the configurations listed in the evidence, not in the one the new site selects)
         try:
+            files = set(PROPS[prop].get("anchors", {}).get("files", []))
+            for r in records:
+                at = (r.get("at") or "").split(":")[0]
+                if at:
+                    files.add(at)
             for st in cfg_sites_not_in_baseline():
-                undecided.append("configuration-dependent site not under contract (not in contracts/c19_cfg_sites.json): %s:%d  %s  ->  %s"
-                                 % (st["file"], st["line"], st["cfg"], st["target"][:120]))
+                if prop == "C19" or st["file"] in files:
+                    undecided.append("configuration-dependent site not under contract (not in contracts/c19_cfg_sites.json): %s:%d  %s  ->  %s"
+                                     % (st["file"], st["line"], st["cfg"], st["target"][:120]))
         except Undecided as u:
             undecided.append("cfg sites: %s" % u)
     expected = _expected_count(prop, a.tier)
@@ -404,6 +423,20 @@ def cfg_sites():
                     j += 1
                 target = " ".join(lines[j].split()) if j < len(lines) else ""
                 sites.append({"file": rel, "cfg": " ".join(line.split()), "target": target, "line": i + 1})
+            # constructs whose behaviour depends on the build configuration without a cfg attribute: debug assertions and
+            # calls of the crate's cfg-dependent unit predicates; identified by their text and the enclosing fn header
+            cur_fn = ""
+            for i, line in enumerate(lines):
+                t = line.strip()
+                if t.startswith("//"):
+                    continue
+                m = re.match(r"(?:pub(?:\([a-z]+\))?\s+)?(?:const\s+)?(?:unsafe\s+)?fn\s+\w+", t)
+                if m:
+                    cur_fn = " ".join(t.split())[:160]
+                if re.search(r"\bdebug_assert(?:_eq|_ne)?!\s*\(|\.eq_assume_(?:true|false)\s*\(|\.assert_eq_assume_(?:ok|not_ok)\s*\(|\.eq_assume_(?:ok|not_ok)\s*\(", t):
+                    if re.match(r"(?:pub\s+)?(?:const\s+)?fn\s+(?:eq_assume|assert_eq_assume)", t):
+                        continue
+                    sites.append({"file": rel, "cfg": "use: " + " ".join(t.split()), "target": cur_fn, "line": i + 1})
     return sites
 
 
